@@ -34,7 +34,9 @@ FaultKinds == {"null", "string", "number", "bool", "array", "object", "empty", "
                \* boundary values of structured strings ("Type: name", SPDX special values)
                "cut-after-colon", "whitespace", "noassertion",
                \* the optional trailing "(group)" of an actor string standing alone, and opened but never closed
-               "paren-only", "paren-unclosed"}
+               "paren-only", "paren-unclosed",
+               \* a ':'-delimited string cut in front of its k-th delimiter, ending in a dangling escape character
+               "esc-cut-1", "esc-cut-2", "esc-cut-3", "esc-cut-4", "esc-cut-5", "esc-cut-6"}
 
 CONSTANTS Export      \* "shapes" | "faults" | "none"
 \* every JSON path of the representative documents, listed by the harness ("document#/path")
